@@ -41,7 +41,7 @@ structure TInv (s : St) : Prop where
   t4 : ∀ h, (s.handlers h).pc = .run → (s.handlers h).ctxCancelled = false → s.tasks (s.handlers h).task = some h
   t5 : ∀ h, s.r = .spawn h → (s.handlers h).ctxCancelled = false → s.tasks (s.handlers h).task = some h
 
-theorem TInv_init : TInv init := by constructor <;> simp [init]
+theorem TInv_init (f p : Nat → Nat) : TInv (initSz f p) := by constructor <;> simp [initSz]
 
 set_option maxHeartbeats 2000000 in
 theorem TInv_step (s s' : St) (a : Act) (hA : HAInv s) (hp' : PeerOK s'.hist) (h : TInv s)
@@ -76,7 +76,7 @@ theorem PeerOK_prefix (h l : List Evt) (hp : PeerOK (h ++ l)) : PeerOK h := by
 
 theorem TInv_reach (s : St) (hr : Reachable s) : PeerOK s.hist → TInv s := by
   have : HAInv s ∧ (PeerOK s.hist → TInv s) := by
-    refine reachable_induct (P := fun s => HAInv s ∧ (PeerOK s.hist → TInv s)) ⟨HAInv_init, fun _ => TInv_init⟩ ?_ s hr
+    refine reachable_induct (P := fun s => HAInv s ∧ (PeerOK s.hist → TInv s)) (fun f p => ⟨HAInv_init f p, fun _ => TInv_init f p⟩) ?_ s hr
     intro s s' a _ ih hs
     refine ⟨HAInv_step s s' a ih.1 hs, fun hp' => ?_⟩
     obtain ⟨l, hl⟩ := step_hist s s' a hs
